@@ -229,6 +229,11 @@ def case_of(lsh, source, heap_override=None):
     return {'shape': lsh, 'source': source, 'obs': obs, 'oracle': oracle(lsh, obs)}
 
 
+def grow_space(seed, kw):
+    np.random.seed(seed)
+    return TreeSpace(n_variables=1, n_iterations=1, lower_bound=[0], upper_bound=[1], **kw)
+
+
 def grown_cases(n_spaces, rnd, tag):
     fns = sorted(c.N_ARGS_FUNCTION.keys())
     out = []
@@ -236,11 +241,11 @@ def grown_cases(n_spaces, rnd, tag):
         nf = rnd.randint(1, len(fns))
         fs = rnd.sample(fns, nf)
         mind = rnd.randint(1, 2)
-        maxd = rnd.randint(mind, 6)
-        np.random.seed(rnd.randrange(2 ** 31))
+        maxd = rnd.randint(mind, 7)
+        kw = {'n_trees': rnd.randint(1, 4), 'n_terminals': rnd.randint(1, 2), 'min_depth': mind, 'max_depth': maxd, 'functions': fs}
+        seed = rnd.randrange(2 ** 31)
         try:
-            sp = TreeSpace(n_trees=rnd.randint(1, 4), n_terminals=rnd.randint(1, 3), n_variables=1, n_iterations=1,
-                           min_depth=mind, max_depth=maxd, functions=fs, lower_bound=[0], upper_bound=[1])
+            sp = grow_space(seed, kw)
         except Exception as ex:  # noqa: BLE001
             out.append({'shape': None, 'source': '%s/%d' % (tag, k), 'grow_error': type(ex).__name__ + ': ' + str(ex)[:200]})
             continue
@@ -248,7 +253,7 @@ def grown_cases(n_spaces, rnd, tag):
             lsh, nodes = extract(tr)
             obs = observe(tr, nodes)
             out.append({'shape': lsh, 'source': '%s/%d/%d fns=%s depth=[%d,%d]' % (tag, k, j, ','.join(fs), mind, maxd),
-                        'obs': obs, 'oracle': oracle(lsh, obs), 'grown': True})
+                        'obs': obs, 'oracle': oracle(lsh, obs), 'grown': True, 'grow': {'seed': seed, 'kw': kw, 'j': j}})
     return out
 
 
@@ -259,7 +264,18 @@ def main():
         if 'shape' not in rp or rp['shape'] is None:
             hlib.emit({'fails': False, 'note': 'no concrete input recorded: ' + str(rp)[:400]})
             return
-        cs = case_of(rp['shape'], 'replay', rp.get('heap') if rp.get('grown') else None)
+        cs = None
+        if rp.get('grown') and rp.get('grow'):
+            # a tree produced by TreeSpace.grow: grow it again from the recorded seed and parameters
+            try:
+                tr = grow_space(rp['grow']['seed'], rp['grow']['kw']).trees[rp['grow']['j']]
+                lsh, nodes = extract(tr)
+                obs = observe(tr, nodes)
+                cs = {'shape': lsh, 'obs': obs, 'oracle': oracle(lsh, obs), 'regrown_same_shape': lsh == rp['shape']}
+            except Exception as ex:  # noqa: BLE001
+                cs = None
+        if cs is None:
+            cs = case_of(rp['shape'], 'replay', rp.get('heap') if rp.get('grown') else None)
         keys = [k for k, _, _ in cs['oracle']]
         if rp.get('kind') == 'correspondence':
             # the oracle had nothing to say; the recorded behaviour disagreed with the model: still there?
@@ -276,7 +292,7 @@ def main():
     for sh in shapes_upto(3):
         cases.append(case_of(label_random(sh, rnd), 'enum3/random-types'))
     n_exhaustive = len(cases)
-    n4 = 120 if hlib.QUICK else 5000
+    n4 = 120 if hlib.QUICK else 20000
     sub = shapes_upto(3)
     k = 0
     while k < n4:
